@@ -123,5 +123,5 @@ MANIFEST = {
     "design_ref": "DESIGN.md §4 C14",
     "note": ("trusts: Coq kernel, extraction, fact extractor for tags/limits, harness generators; types outside "
              "Formats.v are covered by the implementation-only round-trip oracle (exploration), listed in the evidence"),
-    "technique": "Coq proof of codec round-trips over parser combinators + byte-exact extracted-model correspondence",
+    "technique": "Coq proof of codec round-trips over parser combinators and of the canonical (order-independent) encoding of set fields + byte-exact extracted-model correspondence (binary formats, tag field, event log files); protobuf wire types and vault-crate types explored on the implementation only",
 }
